@@ -442,6 +442,7 @@ class PathEval(object):
             out.terminals.append(t)
             return "stop"
         if k == "DeclStmt":
+            forks = None
             for v in n["c"]:
                 init = v["c"][0] if v.get("c") else None
                 if init is not None:
@@ -450,6 +451,10 @@ class PathEval(object):
                         env[v["n"]] = wrap(val, f.unit.types[v["t"]])
                     else:
                         env.pop(v["n"], None)
+                        if val is None and v["n"] in self.split and forks is None:
+                            forks = [({v["n"]: x}, "KEEP") for x in self.split[v["n"]]]
+            if forks:
+                return ("fork", forks)
             return None
         a = assigned(n)
         if a is not None:
@@ -467,6 +472,8 @@ class PathEval(object):
                     self.kill(env, key)
                     if val is not None and (self.track is None or key in self.track):
                         env[key] = wrap(val, f.type_of(tgt))
+                    elif val is None and key in self.split:
+                        return ("fork", [({key: v}, "KEEP") for v in self.split[key]])
                 return None
             # store to non-local memory
             if self.custom_effect is None or self.custom_effect(f, n, env):
@@ -498,7 +505,8 @@ class PathEval(object):
                     del env[kk]
             sp = [kk for kk in addr_keys if kk in self.split]
             if sp:
-                return ("fork", [({sp[0]: v}, "KEEP") for v in self.split[sp[0]]])
+                import itertools
+                return ("fork", [(dict(zip(sp, combo)), "KEEP") for combo in itertools.product(*[self.split[kk] for kk in sp])])
             if fn in self.markers:
                 env["#" + fn] = 1
             if fn in self.call_values:
